@@ -97,3 +97,12 @@ func (s *Sched) stateKey() uint64 {
 
 // HashString exposes the string hash used for state keys.
 func HashString(s string) uint64 { return hstr(s) }
+
+// TouchCell is Touch for a caller-owned hash cell (fakes).
+func TouchCell(c *uint64) {
+	s := cur
+	if s == nil || s.aborting || s.firing != nil {
+		return
+	}
+	s.touch(c, 1)
+}
